@@ -209,12 +209,13 @@ for y in range(7):
 
 # ---------------------------------------------------------------- C05
 P = "C05"
-BOUNDS[P] = "fragments(): two-fragment scanlines with arbitrary finite attribute values/steps and power-of-two reciprocal depths (exact division), scalar, Vec2, (f32,Vec3), Color3f, (); tri_fill x affine attribute: all lattice triangles of the 2x2 grid x attribute planes with integer coefficients (alpha,beta in [-1,2], gamma in [-4,4]), w = 1; fragments() on a 20-fragment scanline with reciprocal depths z0*(k+1): fragment 8 (quick) / 19 (thorough) perspective-correct within 1e-5 relative"
+BOUNDS[P] = "fragments(): two-fragment scanlines with arbitrary finite attribute values/steps and power-of-two reciprocal depths (exact division), scalar, Vec2, (f32,Vec3), Color3f, (); tri_fill x affine attribute: all lattice triangles of the 2x2 grid x attribute planes with integer coefficients (alpha,beta in [-1,2], gamma in [-4,4]), w = 1; fragments() on a 20-fragment scanline with reciprocal depths z0*(k+1): fragment 8 perspective-correct within 1e-5 relative for integer attribute start/step (quick), fragments 8 and 19 for arbitrary floats (thorough)"
 OUTSIDE[P] = ["perspective (w != 1) through tri_fill: tolerance proof over free floats did not finish in 30 min", "arbitrary float attributes / depths through tri_fill", "finiteness for arbitrary finite input with area > 1e-6", "Angle attributes (ZDiv is the identity by design)"]
 LEVEL_TEXT[P] = ("Bounded model checking: the per-fragment perspective division is decided bit-for-bit on arbitrary scanlines for scalar, vector, tuple and colour attributes; "
                  "interpolation through tri_fill is decided exactly on the lattice for every affine attribute plane with small integer coefficients.")
+H(P, "c05", "c05_fragments_long_int_k8", ("bare",), "Scanline<f32>, 20 fragments: integer attribute start in [-1000,1000] and step in [-10,10], reciprocal depths z0*(k+1), z0 in {1/2,1,2,4}; attribute checked at fragment 8", "every fragment at start+k*step with depth z0*(k+1) exactly; fragment 8: var * own z == stepped value (rel 1e-5): perspective-correct in the middle of a long span, not only at span ends", unwind=23, est=120, cap=600)
 for k in (8, 19):
-    H(P, "c05", f"c05_fragments_long_k{k}", ("bare",), f"Scanline<f32>, 20 fragments: arbitrary attribute start/step, reciprocal depths z0*(k+1), z0 in {{1/2,1,2,4}}; attribute checked at fragment {k}", f"every fragment at start+k*step with depth z0*(k+1) exactly; fragment {k}: var * own z == stepped value (rel 1e-5): perspective-correct in the middle of a long span, not only at span ends", unwind=23, est=600, cap=1800, tiers=(("quick", "thorough") if k == 8 else ("thorough",)))
+    H(P, "c05", f"c05_fragments_long_k{k}", ("bare",), f"Scanline<f32>, 20 fragments: arbitrary float attribute start/step, reciprocal depths z0*(k+1), z0 in {{1/2,1,2,4}}; attribute checked at fragment {k}", f"as c05_fragments_long_int_k8, for every float start/step, fragment {k} (one float divider plus the multiply-back: 9-16 min)", unwind=23, est=900, cap=2700, tiers=("thorough",))
 H(P, "c05", "c05_fragments_f32", ("bare",), "Scanline<f32>, two fragments: arbitrary start position, attribute start/step; reciprocal depths 2^k and 2^(k+1)", "fragment k at start+k*step; var == stepped value / own z exactly", unwind=6, est=120)
 H(P, "c05", "c05_fragments_compound", ("bare",), "Scanline<(f32,Vec3)>, <Vec2>, <Color3f>, <()>: n<=2, finite floats", "every component divided by the fragment's own z; () passes through", unwind=4, est=1200, cap=2700, tiers=("thorough",))
 H(P, "c05", "c05_fragments_color", ("bare",), "Scanline<Color3f>, two fragments, arbitrary finite channels and steps, reciprocal depths 2^k", "every colour channel divided by the fragment's own z (exactly)", unwind=4, est=120)
